@@ -109,24 +109,29 @@ def extract_layout(facts, fname, version, hsd):
     table = {}
     eng = Engine(facts, 'count')
     eng.setup(fn, cur[0]['id'])
+    # pointer locals that name a part of the instrument (`op = &ins->operators[l]`) are read as what they name
+    al = {i_: d_ for i_, d_ in alias_defs(fn.d).items() if not mentions(d_, lambda y: y.get('k') == 'DeclRefExpr' and y.get('id') == cur[0]['id'])}
     def on_expr(eng, e, st):
         for x in walk(e):
             ap = assign_parts(x)
             if ap:
                 tgt, rhs, op = ap
+                tgt, rhs = canon_access(tgt, al), canon_access(rhs, al)
                 t, r = strip(tgt), strip(rhs)
                 # reader: field = cursor[K] | field = toXX(cursor + K)
                 if t.get('k') in ('MemberExpr',) and not eng.is_cursor(root_object(t)):
-                    if r.get('k') == 'ArraySubscriptExpr' and eng.is_cursor(r['b']):
+                    if r.get('k') == 'ArraySubscriptExpr' and eng.cursor_off(r['b'], st) is not None:
                         off = eng.ev(r['i'], st)
+                        off = (eng.cursor_off(r['b'], st) + off) if off is not None else None
                         table.setdefault(field_path(eng, t, st), set()).add((off.cval() if off is not None and off.is_const() else '?', 1, 'U8'))
                     elif short(r.get('callee', '')) in CODECS and r.get('a'):
                         off = eng.cursor_off(r['a'][0], st)
                         if off is not None:
                             table.setdefault(field_path(eng, t, st), set()).add((off.cval() if off.is_const() else '?', 2, CODECS[short(r['callee'])]))
                 # writer: cursor[K] = field
-                if t.get('k') == 'ArraySubscriptExpr' and eng.is_cursor(t['b']) and op == '=':
+                if t.get('k') == 'ArraySubscriptExpr' and eng.cursor_off(t['b'], st) is not None and op == '=':
                     off = eng.ev(t['i'], st)
+                    off = (eng.cursor_off(t['b'], st) + off) if off is not None else None
                     fp = field_path(eng, r, st) if r.get('k') in ('MemberExpr', 'ArraySubscriptExpr') else None
                     if fp:
                         table.setdefault(fp, set()).add((off.cval() if off is not None and off.is_const() else '?', 1, 'U8'))
@@ -556,12 +561,13 @@ def r6_parser_total(facts):
     if not rec:
         raise build.AnalysisBroken('C15.R6: record WOPNInstrument not found')
     uncond = set()
+    al6 = alias_defs(fn.d)
     for b, j, st in fn.cfg.stmts():
         tg = []
         for x in walk(st['s']):
             ap = assign_parts(x)
             if ap:
-                tg.append(ap[0])
+                tg.append(canon_access(ap[0], al6))      # `op = &ins->operators[l]; op->x = ..` stores into ins->operators
             if 'callee' in x and short(callee_name(x)) in ('strncpy', 'memcpy', 'memset') and x.get('a'):
                 tg.append(x['a'][0])
         if not tg:
